@@ -926,13 +926,14 @@ func (f *Frame) storeInstr(x *ssa.Store) {
 	}
 }
 
-var cloCellMap = map[*Frame]map[*ssa.Alloc]Value{}
-
 func (f *Frame) cloCells() map[*ssa.Alloc]Value {
-	m := cloCellMap[f]
+	if f.e.cloCellMap == nil {
+		f.e.cloCellMap = map[*Frame]map[*ssa.Alloc]Value{}
+	}
+	m := f.e.cloCellMap[f]
 	if m == nil {
 		m = map[*ssa.Alloc]Value{}
-		cloCellMap[f] = m
+		f.e.cloCellMap[f] = m
 	}
 	return m
 }
